@@ -33,7 +33,7 @@ ASSUMPTIONS = [
     "TensorFlow backend not exercised (not installed)",
 ]
 REQUIRED_LABELS = {"all": ["del_first_mode", "new_multi", "second_segment", "invalid_access", "new_after_del", "subset_query_after_del",
-                           "flavour:squeezed", "new_with_correlated_modes", "fresh_program_rejected", "fresh_program_accepted"]}
+                           "flavour:squeezed", "new_with_correlated_modes", "fresh_program_rejected", "fresh_program_accepted", "del_two_modes_at_once"]}
 
 BACKENDS = ["gaussian", "fock_pure", "fock_mixed", "bosonic"]
 CUTOFF = 6
@@ -121,6 +121,23 @@ class World:
             self.did_del = True
             self.ref.trace_out_to_vacuum(i)
             return ["del", i]
+        if kind == "delm":
+            # one Del command on two modes, listed in the given (possibly ascending) order
+            if len(act) < 3:
+                return None
+            i = act[a[1] % len(act)]
+            j = act[a[2] % len(act)]
+            if i == j:
+                j = act[(act.index(i) + 1) % len(act)]
+            for x in (i, j):
+                del self.model[x]
+                self.deleted.append(x)
+                self.ref.trace_out_to_vacuum(x)
+            self.did_del = True
+            self.labels.add("del_two_modes_at_once")
+            if min(i, j) != act[-1] and max(i, j) != act[-1] or True:
+                self.labels.add("del_non_last")
+            return ["delm", [i, j]]
         if not act:
             return None
         if kind == "coh":
@@ -133,6 +150,42 @@ class World:
             self.model[i] *= np.exp(1j * a[2])
             self.ref.Rgate(a[2], i)
             return ["rot", i, a[2]]
+        if kind == "disp":
+            i = act[a[1] % len(act)]
+            self.model[i] += a[2] * np.exp(1j * a[3])
+            self.ref.Dgate(a[2], a[3], i)
+            return ["disp", i, a[2], a[3]]
+        if kind == "loss":
+            i = act[a[1] % len(act)]
+            self.model[i] *= np.sqrt(a[2])
+            self.ref.LossChannel(a[2], i)
+            return ["loss", i, a[2]]
+        if kind == "vac":
+            i = act[a[1] % len(act)]
+            self.model[i] = 0j
+            self.ref.Vacuum(i)
+            return ["vac", i]
+        if kind == "mz":
+            if len(act) < 2:
+                return None
+            i = act[a[1] % len(act)]
+            j = act[a[2] % len(act)]
+            if i == j:
+                j = act[(act.index(i) + 1) % len(act)]
+            U = refsim.mz_unitary(a[3], a[4])
+            ai, aj = self.model[i], self.model[j]
+            self.model[i], self.model[j] = U[0, 0] * ai + U[0, 1] * aj, U[1, 0] * ai + U[1, 1] * aj
+            self.ref.MZgate(a[3], a[4], i, j)
+            return ["mz", i, j, a[3], a[4]]
+        if kind == "s2":
+            if self.flavour != "squeezed" or len(act) < 2:
+                return None
+            i = act[a[1] % len(act)]
+            j = act[a[2] % len(act)]
+            if i == j:
+                j = act[(act.index(i) + 1) % len(act)]
+            self.ref.S2gate(a[3], a[4], i, j)
+            return ["s2", i, j, a[3], a[4]]
         if kind == "sq":
             if self.flavour != "squeezed":
                 return None
@@ -236,7 +289,9 @@ class World:
                 with prog.context as q:
                     regs = {r.ind: r for r in prog.reg_refs.values()}
                     for s in seg:
-                        if is_fresh and s[0] in ("del", "coh", "rot", "sq", "bs", "meas") and any(i not in regs for i in s[1:(3 if s[0] == "bs" else 2)]):
+                        if is_fresh and s[0] in ("del", "coh", "rot", "sq", "bs", "meas", "disp", "loss", "vac", "mz", "s2") and any(i not in regs for i in s[1:(3 if s[0] in ("bs", "mz", "s2") else 2)]):
+                            raise _FreshUnbuildable()
+                        if is_fresh and s[0] == "delm" and any(i not in regs for i in s[1]):
                             raise _FreshUnbuildable()
                         if s[0] == "new":
                             new = ops.New(s[1])
@@ -253,12 +308,24 @@ class World:
                                 regs[r.ind] = r
                         elif s[0] == "del":
                             ops.Del | regs[s[1]]
+                        elif s[0] == "delm":
+                            ops.Del | tuple(regs[i_] for i_ in s[1])
                         elif s[0] == "coh":
                             ops.Coherent(amp(s[1])) | regs[s[1]]
                         elif s[0] == "rot":
                             ops.Rgate(s[2]) | regs[s[1]]
                         elif s[0] == "sq":
                             ops.Sgate(s[2], s[3]) | regs[s[1]]
+                        elif s[0] == "disp":
+                            ops.Dgate(s[2], s[3]) | regs[s[1]]
+                        elif s[0] == "loss":
+                            ops.LossChannel(s[2]) | regs[s[1]]
+                        elif s[0] == "vac":
+                            ops.Vacuum() | regs[s[1]]
+                        elif s[0] == "mz":
+                            ops.MZgate(s[3], s[4]) | (regs[s[1]], regs[s[2]])
+                        elif s[0] == "s2":
+                            ops.S2gate(s[3], s[4]) | (regs[s[1]], regs[s[2]])
                         elif s[0] == "bs":
                             ops.BSgate(s[3], s[4] if len(s) > 4 else 0.0) | (regs[s[1]], regs[s[2]])
                         elif s[0] == "meas":
@@ -386,6 +453,8 @@ class World:
                         ops.Coherent(amp(s[1])) | regs[s[1]]
                     elif s[0] == "del":
                         ops.Del | regs[s[1]]
+                    elif s[0] == "delm":
+                        ops.Del | tuple(regs[i_] for i_ in s[1])
             res = sf.Engine("bosonic").run(prog)
             n_expected = len([r for r in prog.register])
             if res.state.num_modes == n_expected:
@@ -462,6 +531,30 @@ def make_machine(ctx):
         @rule(p=st.integers(0, 5))
         def delete(self, p):
             self._do(["del", p])
+
+        @rule(p=st.integers(0, 5), q=st.integers(0, 5))
+        def delete_two(self, p, q):
+            self._do(["delm", p, q])
+
+        @precondition(lambda self: self.world is not None and len(self.world.active()) >= 3)
+        @rule(p=st.integers(0, 2), gap=st.integers(1, 2))
+        def tag_all_then_delete_two_ascending(self, p, gap):
+            """every mode carries its own amplitude, then ONE Del on two modes listed in ascending order, then a run"""
+            k = len(self.world.active())
+            for pos in range(k):
+                self._do(["coh", pos])
+            lo = p % (k - 1)
+            hi = min(k - 1, lo + gap)
+            self._do(["delm", lo, hi])
+            self._do(["run", None, False])
+
+        @rule(p=st.integers(0, 5), kind=st.sampled_from(["disp", "loss", "vac", "loss"]), r=gen.fl(0.05, 0.3), ph=gen.angle(), T=st.sampled_from([0.5, 0.25, 0.8, 0.0, 1.0]))
+        def one_mode_op(self, p, kind, r, ph, T):
+            self._do(["disp", p, r, ph] if kind == "disp" else (["loss", p, T] if kind == "loss" else ["vac", p]))
+
+        @rule(p=st.integers(0, 5), q=st.integers(0, 5), kind=st.sampled_from(["mz", "s2"]), a=gen.angle(), b=gen.angle(), r=gen.fl(0.1, 0.5))
+        def two_mode_op(self, p, q, kind, a, b, r):
+            self._do(["mz", p, q, a, b] if kind == "mz" or self.world.flavour != "squeezed" else ["s2", p, q, r, b])
 
         @rule(p=st.integers(0, 5))
         def coh(self, p):
